@@ -340,6 +340,18 @@ func rulePDF417Encoder(c *Ctx) {
 			// Compute's argument = append([length], append(words, pad...)...)
 			arg := n.Norm(cp[0].Common().Args[1]).String()
 			okArg := strings.HasPrefix(arg, "append(") && strings.Contains(arg, "append(words,pad)")
+			segForm := false
+			if !okArg {
+				// the same sequence built piece by piece into one slice: [descriptor] words... pad...
+				segs, descr := appendSegments(n, cp[0].Common().Args[1], 0)
+				if len(segs) == 3 && segs[0] == "elems" && segs[1] == "words" && segs[2] == "pad" && len(descr) == 1 {
+					d := n.Norm(descr[0])
+					if pEqual(d, MustRef("len(words) + len(pad) + 1")) || pEqual(d, MustRef("len(append(words,pad)) + 1")) {
+						okArg, segForm = true, true
+						c.Check(R6, "pdf417.encodeData/length-descriptor", cp[0].Pos(), true, "len(data+padding) + 1", d.String())
+					}
+				}
+			}
 			c.Check(R6, "pdf417.encodeData/compute-arg", cp[0].Pos(), okArg, "length descriptor followed by data and padding", arg)
 			// the descriptor value
 			for _, s := range appendSites(fn) {
@@ -353,7 +365,15 @@ func rulePDF417Encoder(c *Ctx) {
 			}
 			for _, ret := range returnsOf(fn) {
 				got := n.Norm(ret.Results[0]).String()
-				c.Check(R6, "pdf417.encodeData/result", ret.Pos(), strings.HasPrefix(got, "append(") && strings.HasSuffix(got, ",call:pdf417.(securitylevel).Compute(sl,"+arg+"))"), "codewords followed by the check words computed over them", got)
+				okRes := strings.HasPrefix(got, "append(") && strings.HasSuffix(got, ",call:pdf417.(securitylevel).Compute(sl,"+arg+"))")
+				if segForm && !okRes {
+					if ap, isAp := ret.Results[0].(*ssa.Call); isAp {
+						if bi, isB := ap.Common().Value.(*ssa.Builtin); isB && bi.Name() == "append" {
+							okRes = ap.Common().Args[0] == cp[0].Common().Args[1] && ap.Common().Args[1] == ssa.Value(cp[0])
+						}
+					}
+				}
+				c.Check(R6, "pdf417.encodeData/result", ret.Pos(), okRes, "codewords followed by the check words computed over them", got)
 			}
 		}
 	}
@@ -625,4 +645,52 @@ func pdfRoot(c *Ctx) (*Normer, *ssa.Function) {
 	n.AtomAlias["len(words)"] = "M"
 	n.AtomAlias["call:pdf417.(securitylevel).ErrorCorrectionWordCount(level)"] = "K"
 	return n, enc
+}
+
+// appendSegments: the pieces a slice is put together from by a chain of appends, in order: "elems"
+// for individually listed elements (returned in elems), else the normal form of the appended slice.
+// An empty start (nil, make with length 0) contributes nothing.
+func appendSegments(n *Normer, v ssa.Value, depth int) (segs []string, elems []ssa.Value) {
+	if depth > 8 {
+		return []string{"?"}, nil
+	}
+	switch x := v.(type) {
+	case *ssa.Const:
+		if x.Value == nil {
+			return nil, nil
+		}
+	case *ssa.MakeSlice:
+		if k, isK := n.Norm(x.Len).IsConst(); isK && k == 0 {
+			return nil, nil
+		}
+	case *ssa.Call:
+		if bi, ok := x.Common().Value.(*ssa.Builtin); ok && bi.Name() == "append" && len(x.Common().Args) == 2 {
+			head, he := appendSegments(n, x.Common().Args[0], depth+1)
+			if el := variadicElems(x.Common().Args[1]); el != nil {
+				var keys []int
+				for k := range el {
+					keys = append(keys, k)
+				}
+				sort.Ints(keys)
+				for _, k := range keys {
+					he = append(he, el[k])
+				}
+				return append(head, "elems"), he
+			}
+			tail, te := appendSegments(n, x.Common().Args[1], depth+1)
+			return append(head, tail...), append(he, te...)
+		}
+	}
+	if el := variadicElems(v); el != nil {
+		var keys []int
+		for k := range el {
+			keys = append(keys, k)
+		}
+		sort.Ints(keys)
+		for _, k := range keys {
+			elems = append(elems, el[k])
+		}
+		return []string{"elems"}, elems
+	}
+	return []string{n.Norm(v).String()}, nil
 }
